@@ -265,6 +265,12 @@ pub fn check(c: &Case) -> Outcome {
                             let ob = &mut observers[pending[idx(*i, pending.len())]];
                             net.handshake(w, ob.p);
                             ob.handshake_sent = true;
+                        } else if !live_obs.is_empty() {
+                            // everybody has handshaken: one of them sends its (valid) handshake a second time; nothing
+                            // about choking or interest changes by that
+                            let ob = &observers[live_obs[idx(*i, live_obs.len())]];
+                            net.handshake(w, ob.p);
+                            classes.push("observer-repeats-its-handshake");
                         }
                     }
                     Op::ObsChoke(i) => {
@@ -463,7 +469,7 @@ pub fn check(c: &Case) -> Outcome {
 pub fn def() -> PropDef {
     PropDef {
         id: "C11",
-        rule: "(op ObsLate: an observer's task is not scheduled while 2-64 pieces complete; a loss after a lag of more than 31 broadcasts is the known finding, a loss after a smaller lag a violation) (in a quarter of the cases damaged piece files of an earlier run - right name and length, zeroed tail - lie in the download directory: a restart) one or two supplier peers deliver single-block pieces (2-20 pieces of 1-40 bytes, or 20000-byte two-block pieces) at generated points of a global schedule of up to 60 ops, some deliveries corrupt, suppliers may choke the client in the middle of a piece and unchoke it later; up to three observer connections (incoming or outgoing; outgoing ones may send their own handshake much later than the client's) handshake at generated points - also in the same barrier as a delivery - and choke / unchoke the client at generated points; at the end every observer unchokes. The harness knows A(t), the completion order the manager has handled (every command passes through the stepper), and D(t), the pieces verified on disk. Oracle: an observer's bitfield satisfies A(at its Init) <= bits <= D, spare bits zero; every Have(i) has i in D at the barrier it is read; for each observer the Haves for pieces completed after its Init arrive exactly in completion order, and whenever the observer is not choking the client none is missing. Non-trivial = an observer handshake after at least one and before the last completion, and a completion while that observer chokes the client; distinct by hash of the case.",
+        rule: "(once every observer has handshaken, op ObsHandshake makes one of them send its valid handshake a second time: nothing about choking changes by that) (op ObsLate: an observer's task is not scheduled while 2-64 pieces complete; a loss after a lag of more than 31 broadcasts is the known finding, a loss after a smaller lag a violation) (in a quarter of the cases damaged piece files of an earlier run - right name and length, zeroed tail - lie in the download directory: a restart) one or two supplier peers deliver single-block pieces (2-20 pieces of 1-40 bytes, or 20000-byte two-block pieces) at generated points of a global schedule of up to 60 ops, some deliveries corrupt, suppliers may choke the client in the middle of a piece and unchoke it later; up to three observer connections (incoming or outgoing; outgoing ones may send their own handshake much later than the client's) handshake at generated points - also in the same barrier as a delivery - and choke / unchoke the client at generated points; at the end every observer unchokes. The harness knows A(t), the completion order the manager has handled (every command passes through the stepper), and D(t), the pieces verified on disk. Oracle: an observer's bitfield satisfies A(at its Init) <= bits <= D, spare bits zero; every Have(i) has i in D at the barrier it is read; for each observer the Haves for pieces completed after its Init arrive exactly in completion order, and whenever the observer is not choking the client none is missing. Non-trivial = an observer handshake after at least one and before the last completion, and a completion while that observer chokes the client; distinct by hash of the case.",
         assumptions: &[
             "fewer than 32 completions happen between two barriers of any connection task (each completion has its own barrier, also in the long runs of 100-200 completions) (the broadcast channel holds 32 commands; lagging receivers are a capacity question the property does not speak about)",
             "D is sampled at barriers; a bitfield is compared with D at the end of the barrier in which it was read (D is monotone)",
@@ -473,7 +479,7 @@ pub fn def() -> PropDef {
             cases: |t| t.pick(12_000, 150_000),
             run: |ctx| run_proptest(ctx, "announcements", strategy(), check),
             replay: |v| replay_case::<Case>(v, check),
-            min_class: &[("observer-handshake-between-completions", 0.3), ("completion-while-observer-chokes", 0.3), ("observer-bitfield-checked", 0.4288), ("handshake-and-delivery-in-same-barrier", 0.2), ("corrupt-completion", 0.2), ("outgoing-observer-handshakes-late", 0.1), ("supplier-chokes-mid-piece", 0.1), (">=100-completions-while-an-observer-chokes", 0.003), ("damaged-leftover-piece-files", 0.1), ("completions-while-an-observer-task-is-not-scheduled", 0.08), (">16-completions-while-an-observer-task-is-not-scheduled", 0.008)],
+            min_class: &[("observer-handshake-between-completions", 0.3), ("completion-while-observer-chokes", 0.3), ("observer-bitfield-checked", 0.4288), ("handshake-and-delivery-in-same-barrier", 0.2), ("corrupt-completion", 0.2), ("outgoing-observer-handshakes-late", 0.1), ("supplier-chokes-mid-piece", 0.1), (">=100-completions-while-an-observer-chokes", 0.003), ("damaged-leftover-piece-files", 0.1), ("completions-while-an-observer-task-is-not-scheduled", 0.08), (">16-completions-while-an-observer-task-is-not-scheduled", 0.008), ("observer-repeats-its-handshake", 0.15)],
         }],
     }
 }
